@@ -449,6 +449,14 @@ func (g *Gen) planDoc(invalid bool) *PlanDoc {
 		}
 		d.Tasks = append(d.Tasks, t)
 	}
+	// list the tasks in an arbitrary order: `after` may name tasks that appear
+	// later in the document (a DAG need not be written in dependency order)
+	if g.R.Chance(2, 3) {
+		for i := len(d.Tasks) - 1; i > 0; i-- {
+			j := g.R.Intn(i + 1)
+			d.Tasks[i], d.Tasks[j] = d.Tasks[j], d.Tasks[i]
+		}
+	}
 	if invalid {
 		switch g.R.Intn(9) {
 		case 0:
